@@ -141,6 +141,9 @@ type Exec struct {
 	BranchSliceHops int
 	Lazy bool
 	callNames []string
+	initStores map[*ssa.Package]map[*ssa.Global]bool
+	// UninitReads: globals used although their package initialiser was not interpreted (global -> package path)
+	UninitReads map[string]string
 	bigstrBack map[int]*Term
 	activeFns map[*ssa.Function]int
 	// LazyMath: no feasibility queries on branches inside the pure arithmetic packages (see isMathFn)
@@ -547,6 +550,7 @@ func (e *Exec) get(f *Frame, v ssa.Value) Value {
 		return x
 	case *ssa.Global:
 		e.ensureInit(f.st, x.Pkg)
+		e.noteUninitGlobal(x)
 		return e.globalPtr(f.st, x)
 	}
 	val, ok := f.locals[v]
@@ -1103,4 +1107,49 @@ func isMathFn(fn *ssa.Function) bool {
 		return true
 	}
 	return false
+}
+
+// noteUninitGlobal records a use of a package-level variable that its package's initialiser assigns, when that
+// initialiser was not interpreted (the package is not in the props file's init list): the variable is then zero here but
+// not in the real program, so every verdict that depends on it is suspect. Reported as an inconclusive item.
+func (e *Exec) noteUninitGlobal(g *ssa.Global) {
+	if g.Pkg == nil || e.inInit {
+		return
+	}
+	path := g.Pkg.Pkg.Path()
+	if e.initAllowed(path) {
+		return
+	}
+	if e.initStores == nil {
+		e.initStores = map[*ssa.Package]map[*ssa.Global]bool{}
+	}
+	set, ok := e.initStores[g.Pkg]
+	if !ok {
+		set = map[*ssa.Global]bool{}
+		lookupMu.Lock()
+		g.Pkg.Build()
+		lookupMu.Unlock()
+		for name, m := range g.Pkg.Members {
+			fn, isFn := m.(*ssa.Function)
+			if !isFn || !strings.HasPrefix(name, "init") {
+				continue
+			}
+			for _, b := range fn.Blocks {
+				for _, in := range b.Instrs {
+					if st, ok := in.(*ssa.Store); ok {
+						if gg, ok := st.Addr.(*ssa.Global); ok {
+							set[gg] = true
+						}
+					}
+				}
+			}
+		}
+		e.initStores[g.Pkg] = set
+	}
+	if set[g] {
+		if e.UninitReads == nil {
+			e.UninitReads = map[string]string{}
+		}
+		e.UninitReads[g.String()] = path
+	}
 }
